@@ -4367,3 +4367,24 @@ def finalize(obls, env):
         if o.get("status") == "candidate":
             witness.confirm(o, env)
     return obls
+
+
+# ============================================================================ one undecidable obligation must not take its whole group down
+def _guard(fn):
+    import functools
+
+    @functools.wraps(fn)
+    def wrapped(*a, **kw):
+        try:
+            return fn(*a, **kw)
+        except mir.MirError as e:
+            d = {"id": fn.__name__, "engine": "smt", "status": "inconclusive", "doc": (fn.__doc__ or "")[:200],
+                 "detail": "cannot encode / undecided (MIR shape changed? solver limit?): %s" % e}
+            return [d] if kw.get("panics") else d
+    return wrapped
+
+
+for _n, _f in list(globals().items()):
+    if callable(_f) and getattr(_f, "__module__", None) == __name__ and _n.startswith(("site_", "kernel_", "journal_", "scan_", "lemma_")) \
+            and _n not in ("scan_progress_only",):
+        globals()[_n] = _guard(_f)
